@@ -1,12 +1,12 @@
 CONSTANTS
   Modes = {"sp", "cm", "up"}
   MaxW = 2
-  MaxT = 6
+  MaxT = 5
   MaxC = 1
   Dups = TRUE
   MaxEdits = 3
   Edits = TRUE
-  KindSel = "some"
+  KindSel = "one"
   MinVals = 0
   AllPerms = FALSE
   Emit = FALSE
